@@ -87,13 +87,6 @@ def ApplicableAttr.getIdent : ApplicableAttr → E Member
     | none => panicAt "expand.rs:ApplicableAttr::get_ident:unreachable(19)"
   | .ghost _ => panicAt "expand.rs:ApplicableAttr::get_ident:unreachable(9)"
 
-def ApplicableAttr.hasAction : ApplicableAttr → Bool
-  | .field a => a.action.isSome
-  | .ghost g => g.action.isSome
-  | .parentChildField pc k => match pc.getForKind k with
-    | some a => a.action.isSome
-    | none => false
-
 def ApplicableAttr.getFieldNameOr (a : ApplicableAttr) (field : Member) : E Member :=
   match a with
   | .field c => .ok (c.member.getD field)
@@ -983,7 +976,7 @@ def derive (b : Back) (node : RawInput) : Outcome :=
     match dt with
     | .error e => ofPErr e
     | .ok input =>
-      match validate input with
+      match validateAll input with
       | [] => match dataTypeImpls input with
         | .ok impls => .ok impls.flatten
         | .error e => ofPErr e
